@@ -86,3 +86,32 @@ func Address(bank int) {
 	vp.Assert("read-after-write-sees-the-new-value", S.Bus.EaRead(a) == nv)
 	vp.Reach("both-mapped")
 }
+
+// Long: the three-byte read the CPU uses for long operands and vectors (EaRead24_wrap) sees the
+// same storage as three single reads, byte by byte, also where the three addresses fall into
+// different memories of the console map (ROM / WRAM mirror / SRAM / registers) or wrap at the end
+// of the bank. Single reads are compared with the mapper in Address.
+func Long(bank int) {
+	vp.FillBytes("rom", S.ROM[:])
+	vp.FillBytes("wram", S.WRAM[:])
+	vp.FillBytes("sram", S.SRAM[:])
+	off := vp.U16("offset")
+	var b [3]byte
+	anyFail := false
+	for k := 0; k < 3; k++ {
+		a := uint32(bank)<<16 | uint32(off+uint16(k))
+		if vp.Try(func() { b[k] = S.Bus.EaRead(a) }) {
+			anyFail = true
+		}
+	}
+	var got uint32
+	failed := vp.Try(func() { got = S.Bus.EaRead24_wrap(uint8(bank), off) })
+	if anyFail {
+		vp.Assert("long-read-fails-when-one-of-its-bytes-is-unmapped", failed)
+		vp.Reach("console-unmapped")
+		return
+	}
+	vp.Assert("long-read-of-mapped-bytes-succeeds", !failed)
+	vp.Assert("long-read-returns-the-three-bytes-single-reads-return", failed || got == uint32(b[0])|uint32(b[1])<<8|uint32(b[2])<<16)
+	vp.Reach("mapped")
+}
